@@ -16,7 +16,8 @@ for id in $ids; do
   if ! git -C $REPO_DIR apply $VERIF_DIR/seeded/$id/patch.diff 2>$OUT_DIR/$id.apply; then echo "$id APPLY-FAILED"; continue; fi
   rc=0; : > $OUT_DIR/$id.out
   for p in $checks; do
-    timeout 1800 ./check $p quick >> $OUT_DIR/$id.out 2>&1; r=$?
+    tier=quick; case $p in *:thorough) tier=thorough; p=${p%:thorough};; esac   # a checks entry may name the thorough tier
+    timeout 5400 ./check $p $tier >> $OUT_DIR/$id.out 2>&1; r=$?
     [ $r -gt $rc ] && rc=$r
     [ $r = 1 ] && break
   done
